@@ -217,7 +217,44 @@ def run(ctx):
             np.random.seed(5)
             with contextlib.redirect_stdout(io.StringIO()): r2 = digest(f(args))
             if r1 != r2: viol(f'C14:{name}:not-repeatable', f'{name} returns different bits when the call is repeated (same global seed)', {'function': name})
+        # the answer depends on the CONTENT of the arguments, not on which array object carries it: compute the answer for doubled copies,
+        # call on the originals, double the originals in place, call again on the same objects (a cache keyed by identity would answer stale)
+        if not changed and name not in documented_inplace and all(isinstance(a, np.ndarray) for a in args):
+            try:
+                dbl = [a * 2 for a in args]
+                np.random.seed(5)
+                with contextlib.redirect_stdout(io.StringIO()): want = digest(f(dbl))
+                np.random.seed(5)
+                with contextlib.redirect_stdout(io.StringIO()): f(args)
+                for a in args: a *= 2
+                np.random.seed(5)
+                with contextlib.redirect_stdout(io.StringIO()): got = digest(f(args))
+                for a in args: a /= 2
+                if got != want: viol(f'C14:{name}:stale-after-inplace-edit', f'{name} called again after its argument was edited in place returns something else than on a fresh array with the same content', {'function': name})
+            except Exception as e:
+                ctx.notes.append(f'in-place re-call of {name} not evaluated: {e!r}'[:160])
         ctx.count(('mut', name), True)
+    # reporting options must not change the answer: every entry point with a `verbose` flag, silent vs verbose (output discarded)
+    def _vb(label, call_quiet, call_verbose):
+        try:
+            np.random.seed(5)
+            with contextlib.redirect_stdout(io.StringIO()): a0 = digest(call_quiet())
+            np.random.seed(5)
+            with contextlib.redirect_stdout(io.StringIO()): a1 = digest(call_verbose())
+            if a0 != a1: viol(f'C14:{label}:verbose-changes-answer', f'{label} returns something else with verbose=True than with verbose=False', {'function': label})
+        except Exception as e: viol(f'C14:{label}:verbose-raises', f'{label} raised {e!r} with verbose=True', {'function': label})
+        ctx.count(('verbose', label), True)
+    import solver as _S
+    _bq = quaternion.as_quat_array(rs.randint(-3, 4, size=(3, 1, 4)).astype(float)); _Sd = S + 9 * np.eye(3)
+    for _lab, _mk in (('NewtonSchulzPseudoinverse', lambda v: _S.NewtonSchulzPseudoinverse(max_iter=4, verbose=v).compute(A)), ('HigherOrderNewtonSchulzPseudoinverse', lambda v: _S.HigherOrderNewtonSchulzPseudoinverse(max_iter=3, verbose=v).compute(A)[:2]),      # third element: wall-clock times
+                      ('QGMRESSolver', lambda v: _S.QGMRESSolver(tol=1e-10, verbose=v).solve(_Sd, _bq)), ('QGMRESSolver[left_lu]', lambda v: _S.QGMRESSolver(tol=1e-10, verbose=v, preconditioner='left_lu').solve(_Sd, _bq)),
+                      ('RandomizedSketchProjectPseudoinverse', lambda v: _S.RandomizedSketchProjectPseudoinverse(block_size=2, max_iter=4, verbose=v).compute(A)), ('HybridRSPNewtonSchulz', lambda v: _S.HybridRSPNewtonSchulz(max_iter=3, verbose=v).compute(A)),
+                      ('CGNEQSolver', lambda v: _S.CGNEQSolver(max_iter=4, verbose=v).compute(A)),
+                      ('quaternion_schur', lambda v: schur.quaternion_schur(S, max_iter=5, verbose=v)), ('quaternion_schur_pure', lambda v: schur.quaternion_schur_pure(S, max_iter=5, verbose=v)),
+                      ('quaternion_schur_pure_implicit', lambda v: schur.quaternion_schur_pure_implicit(S, max_iter=5, verbose=v)), ('quaternion_schur_unified[aed]', lambda v: schur.quaternion_schur_unified(S, variant='aed', max_iter=5, verbose=v)),
+                      ('quaternion_schur_experimental', lambda v: schur.quaternion_schur_experimental(S, max_iter=5, verbose=v)),
+                      ('power_iteration', lambda v: utils.power_iteration(Hm, max_iterations=6, return_eigenvalue=True, verbose=v))):
+        _vb(_lab, lambda _mk=_mk: _mk(False), lambda _mk=_mk: _mk(True))
     ctx.cov['documented_in_place'] = documented_inplace
     # both import styles in fresh interpreters
     outs = {}
